@@ -304,6 +304,26 @@ impl C15 {
             } else if back != 0.0 || ph != 0.0 {
                 ctx.violation("conversion:zero-not-preserved", Obj::new().f("via_log", back).f("via_phred", ph).done());
             }
+            // log-space <-> PHRED directly (no exponential involved), incl. values far below the linear f64 range
+            let lp = match rng.below(4) {
+                0 => -rng.f64() * 700.0,
+                1 => -700.0 - rng.f64() * 60.0,
+                2 => -rng.f64() * 1e5,
+                _ => -rng.f64(),
+            };
+            let lp_back = *LogProb::from(PHREDProb::from(LogProb(lp)));
+            let q = -lp * 10.0 / std::f64::consts::LN_10;
+            let q_back = *PHREDProb::from(LogProb::from(PHREDProb(q)));
+            ctx.eval(2);
+            if lp != 0.0 && !((lp_back - lp).abs() <= 1e-9 * lp.abs()) {
+                ctx.violation("conversion:logprob-phred-logprob", Obj::new().f("ln_p", lp).f("back", lp_back).done());
+            }
+            if q != 0.0 && !((q_back - q).abs() <= 1e-9 * q.abs()) {
+                ctx.violation("conversion:phred-logprob-phred", Obj::new().f("phred", q).f("back", q_back).done());
+            }
+            if lp < -708.0 {
+                ctx.count("conversions_below_linear_f64_range", 1);
+            }
             // checked construction
             let x = match rng.below(8) {
                 0 => -rng.f64() - 1e-12,
